@@ -146,3 +146,16 @@ package service
 //@   modifies nothing
 //@ func parseOTLP [C12]
 //@   flag checks=-assert
+
+// The 15-second table holds one value per series and bucket: it cannot serve the
+// range functions that need every raw sample (quantile, stddev, stdvar over time),
+// sub-15-second steps or ranges, or a start that is not on a bucket boundary.
+// Whenever the down-sampled translation is chosen, none of these is asked for.
+//@ func (*CLokiQuerier).transpileLabelMatchers [C17]
+//@   flag checks=-index,-assert
+//@   requires table-of-functions: has(supportedFunctions, "quantile_over_time") && !supportedFunctions["quantile_over_time"] && has(supportedFunctions, "stddev_over_time") && !supportedFunctions["stddev_over_time"] && has(supportedFunctions, "stdvar_over_time") && !supportedFunctions["stdvar_over_time"]
+//@   at TranspileLabelMatchersDownsample only-what-the-15s-table-can-serve: hints.Start % 15000 == 0 && hints.Step >= 15000 && !(hints.Range > 0 && hints.Range < 15000) && hints.Func != "quantile_over_time" && hints.Func != "stddev_over_time" && hints.Func != "stdvar_over_time"
+// The table itself (package initialisation): the three functions are listed, as unsupported.
+//@ func init [C17]
+//@   flag checks=-index,-assert
+//@   check table-of-functions: has(supportedFunctions, "quantile_over_time") && !supportedFunctions["quantile_over_time"] && has(supportedFunctions, "stddev_over_time") && !supportedFunctions["stddev_over_time"] && has(supportedFunctions, "stdvar_over_time") && !supportedFunctions["stdvar_over_time"]
